@@ -30,7 +30,7 @@ Print Assumptions C18_history_independent.
 Theorem C18_only_optimization_options_can_be_touched : forall hold_of ops h,
   let h' := run_gen hold_of ops h in
   h_graph h' = h_graph h /\ h_sopts h' = h_sopts h /\ h_cons h' = h_cons h /\
-  h_ign h' = h_ign h /\ h_starts h' = h_starts h /\ h_ends h' = h_ends h /\ h_defaults h' = h_defaults h.
+  h_ign h' = h_ign h /\ h_starts h' = h_starts h /\ h_ends h' = h_ends h /\ h_sup h' = h_sup h /\ h_defaults h' = h_defaults h.
 Proof. exact run_only_opts. Qed.
 Print Assumptions C18_only_optimization_options_can_be_touched.
 Theorem C18_caller_keys_survive : forall hold_of ops h k,
@@ -51,7 +51,7 @@ Print Assumptions C18_head_history_independent_refuted.
 Theorem C18_head_only_the_list_is_touched : forall h o,
   let h' := head_step h o in
   h_graph h' = h_graph h /\ h_opts h' = h_opts h /\ h_sopts h' = h_sopts h /\ h_cons h' = h_cons h /\
-  h_ign h' = h_ign h /\ h_starts h' = h_starts h /\ h_ends h' = h_ends h /\ h_defaults h' = h_defaults h.
+  h_ign h' = h_ign h /\ h_starts h' = h_starts h /\ h_ends h' = h_ends h /\ h_sup h' = h_sup h /\ h_defaults h' = h_defaults h.
 Proof. exact head_step_only_ext. Qed.
 Print Assumptions C18_head_only_the_list_is_touched.
 
